@@ -428,6 +428,20 @@ func Run(t *testing.T, sch Schedule, maxSteps int, body func(sim *Sim)) (res *Re
 		defer uuid.SetRand(nil)
 		s.Activate(sch.SelMode)
 		defer func() {
+			// oracles iterate over maps: make the list independent of that order
+			sort.SliceStable(res.Violations, func(i, j int) bool {
+				a, b := res.Violations[i], res.Violations[j]
+				if a.Property != b.Property {
+					return a.Property < b.Property
+				}
+				if a.Class != b.Class {
+					return a.Class < b.Class
+				}
+				if a.Step != b.Step {
+					return a.Step < b.Step
+				}
+				return a.Msg < b.Msg
+			})
 			res.Stats.Steps = s.Steps
 			res.Stats.Switches = s.Switches
 			res.Stats.SchedHash = s.ScheduleHash()
